@@ -236,6 +236,11 @@ class Parser(object):
         elements : element COMMA elements
         """
 
+        if isinstance(p[3], dict):
+            # Raising here would only start PLY's error recovery; parse() reports the error instead
+            self.errors.append("Syntax error: list items and tuple pairs cannot be mixed (line {0})".format(p.lineno(2)))
+            p[3] = []
+
         p[0] = [p[1]] + p[3]
 
     def p_elements_element(self, p):
@@ -313,5 +318,10 @@ class Parser(object):
         # Each source text starts at line 1 as an MPilot (not EEMS 2.0) file, whatever this parser parsed before
         self.lexer.lineno = 1
         self.eems_v2 = False
+        self.errors = []
 
-        return self.parser.parse(source, lexer=self.lexer, tracking=True)
+        program = self.parser.parse(source, lexer=self.lexer, tracking=True)
+        if self.errors:
+            raise SyntaxError(self.errors[0])
+
+        return program
